@@ -3,6 +3,7 @@ package main
 // Loops: cut at invariants.
 
 import (
+	"go/constant"
 	"fmt"
 	"go/ast"
 	"go/token"
@@ -198,7 +199,17 @@ func (x *Xlat) execFor(st *State, fr *Frame, s *ast.ForStmt, label string) *Outc
 	fr.loopEntry = append(fr.loopEntry, st.clone())
 	defer func() { fr.loopEntry = fr.loopEntry[:len(fr.loopEntry)-1] }()
 	x.loopInvs(st, fr, lc, s, "entry", false)
+	cntID, cntDir, cntInit := x.monotoneCounter(st, fr, s)
 	hkeys := x.havocLoop(st, fr, out, s.Body, s.Post, condNode(s.Cond))
+	if cntID != nil {
+		// derived invariant (no annotation): a counter that is only stepped by the post statement never passes its initial value
+		cur := x.eval(st, fr, out, cntID)
+		if cntDir > 0 {
+			st.assume(App(">=", SBool, cur, cntInit))
+		} else {
+			st.assume(App("<=", SBool, cur, cntInit))
+		}
+	}
 	x.loopInvs(st, fr, lc, s, "", true)
 	var c *Term = TTrue
 	if s.Cond != nil {
@@ -558,4 +569,91 @@ func (x *Xlat) execRangeFunc(st *State, fr *Frame, s *ast.RangeStmt, label strin
 	x.absorb(out, o)
 	out.normal = exit
 	return out
+}
+
+// monotoneCounter recognises "for i := e; ...; i++ / i-- / i += c / i -= c" (c a positive literal) where nothing else in the
+// loop assigns i or takes its address. It returns the counter, its direction and its value on entry.
+func (x *Xlat) monotoneCounter(st *State, fr *Frame, s *ast.ForStmt) (*ast.Ident, int, *Term) {
+	if s.Post == nil {
+		return nil, 0, nil
+	}
+	info := fr.info()
+	var id *ast.Ident
+	dir := 0
+	switch p := s.Post.(type) {
+	case *ast.IncDecStmt:
+		i, ok := p.X.(*ast.Ident)
+		if !ok {
+			return nil, 0, nil
+		}
+		id = i
+		if p.Tok == token.INC {
+			dir = 1
+		} else {
+			dir = -1
+		}
+	case *ast.AssignStmt:
+		if len(p.Lhs) != 1 || len(p.Rhs) != 1 || (p.Tok != token.ADD_ASSIGN && p.Tok != token.SUB_ASSIGN) {
+			return nil, 0, nil
+		}
+		i, ok := p.Lhs[0].(*ast.Ident)
+		if !ok {
+			return nil, 0, nil
+		}
+		tv, ok := info.Types[p.Rhs[0]]
+		if !ok || tv.Value == nil || tv.Value.Kind() != constant.Int || constant.Sign(tv.Value) <= 0 {
+			return nil, 0, nil
+		}
+		id = i
+		if p.Tok == token.ADD_ASSIGN {
+			dir = 1
+		} else {
+			dir = -1
+		}
+	default:
+		return nil, 0, nil
+	}
+	obj, _ := info.ObjectOf(id).(*types.Var)
+	if obj == nil {
+		return nil, 0, nil
+	}
+	if b, ok := obj.Type().Underlying().(*types.Basic); !ok || b.Info()&types.IsInteger == 0 {
+		return nil, 0, nil
+	}
+	if _, _, ok := fr.lookupVar(obj); !ok {
+		return nil, 0, nil
+	}
+	clean := true
+	ast.Inspect(s.Body, func(n ast.Node) bool {
+		switch n := n.(type) {
+		case *ast.AssignStmt:
+			for _, l := range n.Lhs {
+				if li, ok := l.(*ast.Ident); ok && info.ObjectOf(li) == obj {
+					clean = false
+				}
+			}
+		case *ast.IncDecStmt:
+			if li, ok := n.X.(*ast.Ident); ok && info.ObjectOf(li) == obj {
+				clean = false
+			}
+		case *ast.UnaryExpr:
+			if n.Op == token.AND {
+				if li, ok := n.X.(*ast.Ident); ok && info.ObjectOf(li) == obj {
+					clean = false
+				}
+			}
+		case *ast.RangeStmt:
+			for _, l := range []ast.Expr{n.Key, n.Value} {
+				if li, ok := l.(*ast.Ident); ok && n.Tok == token.ASSIGN && info.ObjectOf(li) == obj {
+					clean = false
+				}
+			}
+		}
+		return clean
+	})
+	if !clean {
+		return nil, 0, nil
+	}
+	out := &Outcomes{}
+	return id, dir, x.eval(st, fr, out, id)
 }
